@@ -64,6 +64,9 @@ def faults_for(case):
         # two stages cloned from a template with a parameter; only one clone (or only the template) gets a value
         out += [{"fault": "missing_value_clone", "which": w} for w in ("second", "first", "template_only_ok")]
     if kind in ("MS", "SS", "DC"):
+        # a state declared without a rule AFTER a first solve
+        out += [{"fault": "late_state_no_rule", "which": w} for w in ("state", "quad")]
+    if kind in ("MS", "SS", "DC"):
         # a sub-stage with dynamics but without a method under a parent that has one: nothing may be inherited silently
         out += [{"fault": "substage_no_method", "which": w} for w in ("parent_with_dynamics", "bare_parent", "second_of_two")]
     if kind in ("MS", "SS", "DC"):
@@ -85,7 +88,7 @@ def ispec_coq(case, f):
     ns, npar = len(case["states"]), len(case["params"])
     b = lambda l: "[" + "; ".join("true" if x else "false" for x in l) + "]"
     fl = f.get("fault") if f else None
-    rule = [not (fl in ("missing_rule", "missing_rule_der_probe") and f["pos"] == i) for i in range(ns)]
+    rule = [not (fl in ("missing_rule", "missing_rule_der_probe") and f["pos"] == i) for i in range(ns)] + ([False] if fl == "late_state_no_rule" else [])
     val = [not (fl == "missing_value" and f["pos"] == i) for i in range(npar)]
     if fl == "missing_value_clone":
         # the multi-stage OCP has one parameter instance per clone
@@ -166,6 +169,25 @@ def worker(args):
                     ocp.solver("ipopt", {"ipopt.print_level": 0, "print_time": False})
                     out["phase"] = "solve"
                     ocp.solve()
+                    out["raised"] = False
+                    raise Reached()
+                if fl == "late_state_no_rule":
+                    # a well-posed OCP is solved; then a state is declared without a rule and solved again: the second solve
+                    # must refuse (the declaration is ill-posed whatever was transcribed before)
+                    B = build_with_fault(c, rockit, {})
+                    out["phase"] = "first solve"
+                    try:
+                        B.ocp.solve()
+                    except Reached:
+                        pass              # the well-posed OCP reached the solver (stubbed): it is transcribed now
+                    calls["n"] = 0
+                    out["phase"] = "declaration"
+                    if f["which"] == "quad":
+                        B.ocp.state(quad=True)
+                    else:
+                        B.ocp.state()
+                    out["phase"] = "solve"
+                    B.ocp.solve()
                     out["raised"] = False
                     raise Reached()
                 if fl == "substage_no_method":
